@@ -176,6 +176,11 @@ type au struct {
 func parseAu(b []byte) (ret []au) {
 	// TODO(chef): [fix] 解析b时，没有判断长度有效性 202207
 
+	if len(b) < 2 {
+		Log.Warnf("rtp packet size invalid. len(b)=%d", len(b))
+		return nil
+	}
+
 	// AU Header Section
 	var auHeadersLength uint32
 	auHeadersLength = uint32(b[0])<<8 + uint32(b[1])
@@ -187,6 +192,11 @@ func parseAu(b []byte) (ret []au) {
 
 	pauh := uint32(2)                  // AU Header pos
 	pau := uint32(2) + auHeadersLength // AU pos
+
+	if pau > uint32(len(b)) {
+		Log.Warnf("rtp packet size invalid. len(b)=%d, auHeadersLength=%d", len(b), auHeadersLength)
+		return nil
+	}
 
 	for i := uint32(0); i < nbAuHeaders; i++ {
 		// TODO chef: auSize和auIndex所在的位数是写死的13bit，3bit，标准的做法应该从外部传入，比如从sdp中获取后传入
@@ -203,6 +213,11 @@ func parseAu(b []byte) (ret []au) {
 
 		pauh += 2
 		pau += auSize
+	}
+
+	if nbAuHeaders > 1 && pau > uint32(len(b)) {
+		Log.Warnf("rtp packet size invalid. nbAuHeaders=%d, pau=%d, len(b)=%d, auHeadersLength=%d", nbAuHeaders, pau, len(b), auHeadersLength)
+		return nil
 	}
 
 	if (nbAuHeaders > 1 && pau != uint32(len(b))) ||
